@@ -559,7 +559,7 @@ pub fn gen_row(g: &mut G<'_>, cols: &[ColSpec], bin: bool, last: bool) -> RowPro
         _ => RowForm::Mixed(g.usize_in(1, cols.len() - 1)),
     };
     let mut offers = Vec::new();
-    if bin && g.chance(1, 6) {
+    if bin && g.allow_offers && g.chance(1, 6) {
         // a shim with fallback values: some cells are first offered something the column cannot
         // carry, which has to be refused without a trace in the row
         let upto = match form {
